@@ -187,6 +187,34 @@ def load_known(pid):
     return [e for e in json.load(open(p)) if e.get('property') == pid and e.get('status', 'known') == 'known']
 
 
+def _execution_fault(e):
+    """(where, what) when the exception is an index / unwritten-slot / zero-division fault raised while a frame of the encoded REPOSITORY source was executing, else None"""
+    import re as _re
+    kinds = (IndexError, ZeroDivisionError)
+    is_none = isinstance(e, TypeError) and 'NoneType' in str(e)
+    try:
+        from .pyx2py import ExtentError
+        kinds = kinds + (ExtentError,)
+    except Exception:
+        pass
+    if not (isinstance(e, kinds) or is_none):
+        return None
+    tb = e.__traceback__
+    frames = []
+    while tb is not None:
+        frames.append((tb.tb_frame.f_code.co_filename, tb.tb_lineno, tb.tb_frame.f_code.co_name))
+        tb = tb.tb_next
+    src = [f for f in frames if _re.match(r'^TidalPy/.+\.(pyx|py)(:|$)', f[0])]
+    if not src:
+        return None
+    # the fault must originate in (or directly below) the repository code, not in harness code that runs after it returned
+    last_src = max(i for i, f in enumerate(frames) if f in src)
+    if any(('/verif/checks/' in f[0]) for f in frames[last_src + 1:]):
+        return None
+    f = src[-1]
+    return '%s line %d of the transliterated function (%s)' % (f[0], f[1], f[2]), '%s: %s' % (type(e).__name__, str(e)[:160])
+
+
 def _run_job(args):
     idx, fn, kw = args
     t = time.time()
@@ -199,6 +227,15 @@ def _run_job(args):
                 'notes': out.get('notes', []), 'axioms': out.get('axioms', []), 'paths': out.get('paths', 0), 'wall': time.time() - t,
                 'label': out.get('label', getattr(fn, '__name__', str(idx)))}
     except BaseException as e:
+        fault = _execution_fault(e)
+        if fault is not None:
+            # the REAL source, executed by the symbolic executor with concrete indices, indexes outside an array / reads a slot nothing wrote / divides by the zero polynomial:
+            # a deterministic fact about the current source (indices in these kernels are concrete), reported as a violation of the job's property, not as a harness crash
+            where, what = fault
+            name = '%s%s: the encoded source executes without an out-of-range index, a read of an unwritten slot or a division by an identically zero quantity' % (getattr(fn, '__name__', str(idx)), kw)
+            res = {'name': name, 'key': 'fault:%s' % where.split(':')[0], 'verdict': 'sat', 'solver_s': 0.0, 'info': {'where': where}, 'replay_ok': True,
+                   'replay_detail': 'executing %s (current source, concrete indices) raised %s' % (where, what), 'model': {}}
+            return {'job': idx, 'ok': True, 'results': [res], 'encoded': [], 'notes': [], 'axioms': [], 'paths': 0, 'wall': time.time() - t, 'label': getattr(fn, '__name__', str(idx))}
         return {'job': idx, 'ok': False, 'error': '%r' % (e,), 'trace': traceback.format_exc(), 'wall': time.time() - t,
                 'label': getattr(fn, '__name__', str(idx)) + str(kw)}
 
